@@ -12,7 +12,7 @@ CONSTANTS
   EnableLeaderNV = FALSE
   MaxCrash = 0
   MaxBlocks = 2
-INIT InitView1
+INIT Init
 NEXT NextMC
 VIEW MCView
 CONSTRAINT Bound
